@@ -213,7 +213,8 @@ class TreeStorage(BaseStorage):
         if leaf_id not in data_reservoir:
             data_reservoir[leaf_id] = GeometricReservoirStorage(
                 size=self._leaf_reservoir_length, store_targets=False, constant_probability=1.0)
-            self._delete_outdated_reservoirs(feature_name, root_node)
+        # the tree may have been restructured (e.g. a subtree replaced) without a new leaf id showing up
+        self._delete_outdated_reservoirs(feature_name, root_node)
         data_reservoir[leaf_id].update(x)
 
     def __call__(self, feature_name: Any) -> Tuple[Union[HoeffdingTreeRegressor, HoeffdingTreeClassifier], str]:
